@@ -1,6 +1,40 @@
 """One entry per claimed property: level, technique, texts. bin/mkmanifest turns this into MANIFEST.json."""
 ALL = ['C%02d' % i for i in range(1, 21)]
 CHECKS = {
+ 'C03': dict(level='exploration', ref='3/C03',
+   technique='bounded-exhaustive enumeration of MathML expression-tree shapes x context wrappers; generated C compiled and run, generated Python executed, against an independent reference evaluator',
+   text='Every expression tree of depth <= 2 over the whole supported MathML operator set (each parent x operand position x child operator, constants, cn forms) and '
+        'depth-3 chains over the precedence-sensitive operators is placed in four contexts (computed constant; algebraic variable reading a state and the VOI; dx/dt = E '
+        'mentioning x itself; implicit NLA equation) and evaluated at up to three leaf valuations; the compiled C and the executed Python must give the reference value of '
+        'every variable, rate and state and agree with each other, and NLA objective functions must vanish at the reference solution. Shapes are packed 32 per model and '
+        'any anomalous pack is bisected to single shapes; the thorough tier re-runs the depth-1/2 family unpacked.',
+   note='Trusted: lib/mexpr.py reference evaluator (written from the MathML/CellML specifications), gcc -O0, CPython, tolerance 1e-9. Not covered: trees deeper than 3, '
+        'non-finite or ill-conditioned valuations, units scaling between components (see C08/C06).'),
+ 'C10': dict(level='exploration', ref='3/C10',
+   technique='bounded-exhaustive enumeration of ALL ordered pairs and ALL triples of a per-kind pool (bases, every child-order permutation, every single mutation at every '
+             'depth, 0-3 identical children, not-covered variants, null) built through the API, judged by equality of an independent canonical dump (children as multisets)',
+   text='For each kind (model, component, variable, units, reset, import source) the pool is {bases with depth-2 content (thorough: depth 3)} + {all permutations of every child list} + '
+        '{every covered attribute altered / emptied, every child removed / added as copy of a sibling / added fresh, at every depth} + {0,1,2,3 identical children} + {same content with a '
+        'parent / equivalences / order-presence flag / own units objects: must stay equal} + {empty entity, null} (quick: 212/159/41/64/64/8 members). equals(a,b) is called for ALL ordered '
+        'pairs (against an independently built twin and inside one build incl. a->equals(a)) and compared with reference equality; transitivity is checked on ALL triples (real calls, memoised per '
+        'process; determinism checked on every pair); all kinds are also compared with each other (look-alike name/id). Thorough adds every double mutation of the depth-2 bases against base and '
+        'all single mutants in both directions (34 M pairs). Unit exponents/multipliers only take identical or clearly different values (carve-out of the statement).',
+   note='Trusted: the canonical dump through public getters (harness/c10c11.hpp; never calls equals()), the JSON->API builder, ASan/UBSan. The classifier that names a mismatch '
+        '(receiver-strictly-fewer / set-not-multiset) only chooses the signature; every mismatch is reported. Pools come from one base per kind (two for units): content shapes outside '
+        'depth <= 3 and more than two simultaneous mutations are not covered.'),
+ 'C11': dict(level='exploration', ref='3/C11',
+   technique='bounded-exhaustive enumeration of a grid of generated models (API-built and printed-then-parsed), every entity cloned, then every single mutation of a mutation '
+             'alphabet applied to original and (separately) clone on fresh objects; judged by independent canonical dumps, printer output, equals(), parent and object identity',
+   text='Models = full grid over 8 dimensions (hierarchy shape 4, encapsulation ids 2, units flavour 4 incl. imported and variable-owned units, reset flavour 5 incl. unset order / variable of '
+        'another component / null variables, imports 3 incl. two components sharing one import source, equivalences 4 incl. mapping+connection ids, math 2, ids 2: 7680 models thorough, '
+        '432 quick), each built through the API and re-read from its printed form. Every model, component, units, variable and reset is cloned: field-by-field content incl. isOrderSet, encapsulation '
+        'ids, import references, equivalences with ids; printed forms; equals both ways; no parent; no object shared with the original; equivalences closed over the clone. Then every member of '
+        'the alphabet (all setters on every reachable sub-entity, add/remove of every child kind, equivalence add/remove/ids, import source url/id through the entity, ~50-250 per entity) is '
+        'applied to a fresh original and to a fresh clone and the other side must be unchanged (0.8 M mutations quick). A second family clones models with an equivalence to a variable outside '
+        'the model (no crash, own equivalences unchanged).',
+   note='Trusted: canonical dumps (common.hpp, c10c11.hpp), the JSON->API builder, the repository printer/parser for the parsed origin and the printed-form comparison, ASan/UBSan. Known field '
+        'losses are repaired on the clone from outside before the whole-object comparisons so that other differences still surface. Quick runs the parsed origin without ASan. Only one '
+        'mutation per run; models have <= 4 components and 2 variables each.'),
  'C16': dict(level='exploration', ref='3/C16',
    technique='bounded-exhaustive enumeration of all strings of length <= 5 over the numeric alphabet in every numeric position, against a reference DFA',
    text='Every string of length <= 5 over {digits,+,-,.,e,E,space,a} (quick: digits collapsed to 0,1,9; thorough: all ten) plus a list of extreme strings is placed in '
@@ -8,4 +42,39 @@ CHECKS = {
         'recognisers and converters directly; verdict and converted value are compared with a DFA and strtod/strtol reference; all doubles d.dd x 10^k are '
         'round-tripped through printer and parser. Complete for the stated bound; nothing is sampled.',
    note='Trusted: reference DFA written from the statement, glibc strtod/strtol, libxml2 attribute handling, ASan/UBSan as crash oracle. Longer strings are covered only by the fixed extreme list.'),
+ 'C18': dict(level='model_checking', ref='3/C18',
+   technique='explicit enumeration of all connection graphs x query orders on the real code, plus an exhaustively explored model of the cache-key arithmetic '
+             'over address windows that is bound to the code by placing real Variable objects at the witness addresses and reading the key the code stored',
+   text='(a) every graph on n <= 4 (quick) / 5 (thorough) variables, every assignment of the variables to 2-3 components (flat and nested), is built through the API and '
+        'analysed; all ordered pairs incl. (v,v) are asked 3x each of Variable::hasEquivalentVariable(v,true) and AnalyserModel::areEquivalentVariables in lexicographic, reverse '
+        'and each-pair-first order, and for n <= 3 in ALL permutations of the ordered pairs; answers are compared with union-find reachability over the equivalentVariable(i) lists. '
+        '(b) the key K(a,b) read from analysermodel.cpp is explored over 12 (quick) / 24 (thorough) windows of 64 / 256 MiB of 16-byte-aligned addresses: all sums are enumerated, '
+        'sorted by T(s) and every near-equal pair expanded, which yields ALL key collisions inside a window (the enumerator is cross-checked against brute force on scaled-down word widths); '
+        'each witness is replayed on real Variables placed at the colliding addresses (harness-owned operator new + mmap(MAP_FIXED_NOREPLACE)), connected/unconnected both ways, '
+        'both component and query orders, on the analysed model and on a fresh analyser model; the key the real code stored in mCachedEquivalentVariables is compared with K on every witness, '
+        'on 141 spread addresses and on 1024 / 4096 consecutive objects per base (all pairs). If the code is keyed differently the evidence says model_bound:false and the verdict rests on '
+        'the end-to-end replays and all-pairs correctness + observed-key injectivity on those address sets.',
+   note='Trusted: union-find reference, the placement allocator (an address is only used when the kernel maps exactly that page), glibc/ASan allocators for part (a), the one-line key model (only used to FIND '
+        'candidate addresses; every verdict is an answer of the real code). Windows are a finite list of bases, each explored exhaustively; absence of collisions elsewhere is claimed only '
+        'structurally (observed key = ordered address pair). Address-dependent wrong answers in part (a) would depend on the allocator layout and are not replayable; part (b) owns them.'),
+ 'C08': dict(level='exploration', ref='3/C08',
+   technique='bounded-exhaustive enumeration of a pool of units definitions; all ordered pairs and all triples of a class-complete sub-pool judged by an exact rational reference reduction',
+   text='Pool U = every units definition over references {metre, second, gram, litre, volt, dimensionless, user base units, earlier members}, prefix {none, milli, kilo, 3, -2}, '
+        'exponent {1, 2, -1, 0.5, 0}, multiplier {1, 1000, 0.25}: all 600 one-child definitions, all ordered pairs of a child menu (two children, both orders), nesting depth 1 and 2, '
+        'each also imported (Importer::addModel) and reached through an imported intermediate, every built-in name as a childless object, parentless definitions (quick 2644 members / '
+        '135 reduction classes; thorough about 20 k / 274). ALL ordered pairs of U (compatible, scalingFactor, equivalent; symmetry and inverse law), ALL triples of a sub-pool holding '
+        'every reduction class (transitivity, multiplicativity), null / dangling / parentless / unresolved arguments, child-order and import twins, and one validated two-component model '
+        'per ordered pair of the sub-pool (verdict and both parts of the mismatch hint), plus one analysed model with executed generated C per equal-reduction pair of the sub-pool. Complete for the stated menus; nothing is sampled.',
+   note='Trusted: the reference (exact rationals for exponents, log10 scale as a + b*log10(2), built-in units table typed from the CellML 2.0 specification), glibc log10/pow within 1e-12, '
+        'Importer::addModel/resolveImports/flattenModel as the way imported units are made available (a flattened model whose units changed is counted, not judged). The SI-ratio oracle is '
+        'applied only where prefixes and multipliers sit on children of exponent 1 (statement carve-out); outside it only the algebraic laws are judged. Analyser/generator scaling is judged on one equation shape only (y = v2 with v1 = 1 connected), by executing the generated C with a small evaluator.'),
+ 'C19': dict(level='exploration', ref='3/C19',
+   technique='bounded-exhaustive enumeration of component forests x connection patterns x interface strings (fixVariableInterfaces), units assignments (linkUnits) and seeded empty entities (clean) against references computed from the case specification',
+   text='fixVariableInterfaces: every rooted forest on <= 4 (thorough 5) components x hub component x every ordered sequence of 1 or 2 (3 on <= 3 / 4 components) distinct targets among the other '
+        'components, a component of another model, a component outside any model and a parentless variable x all 6^(k+1) interface strings from {unset, public, private, public_and_private, '
+        'none, foo}; return value, every final interface string, untouched bystanders, frame condition and the validator are judged. linkUnits: 2 layouts x all 6^4 units assignments '
+        '(standard, by string, own object, foreign object, missing, none), twice (idempotence), with pointer identity. clean(): every forest seeded with one or two of 14 emptiness variants in every '
+        'slot, and every sequence of <= 4 (5) units over 7 kinds, compared unsorted with an independently built expected model. Complete for the stated bounds.',
+   note='Trusted: the relation sibling / parent / child read off the parent vector, the documented definition of "empty" in model.h (import-only and encapsulation-id-only entities are accepted either way), '
+        'the canonical dump of common.hpp, the validator as a second opinion only when true is returned. A variable never has more than three equivalences; two variables of one component are never connected.'),
 }
